@@ -12,8 +12,12 @@
 //	          | a named integer type (type T int) of the same or of the root package
 //	          where S is a struct of the same package whose fields have the scalar types above
 //	stmt      x := e | x = e | x op= e | x++ | s[i] = e | s[i] op= e     (s a local made by make([]byte, n))
-//	          | if c { ... } [else { ... } | else if ...]                  (no init statement)
-//	          | for i := 0; i < len(x); i++ { ... }                        (x, i and outer variables not assigned in the body)
+//	          | if [x := e;] c { ... } [else { ... } | else if ...]
+//	          | switch { case c1, c2: ... default: ... } | switch x { case A, B: ... }   (x integer or bool; no init,
+//	                no fallthrough, break only as the last statement of a clause) = the if / else-if chain
+//	          | for i := a; i < e; i++ { ... }     (a, e panic-free int expressions without i; the body assigns no
+//	                variable declared outside it, hence e is invariant; no break / continue)
+//	          | for i := range s | for i, b := range s | for _, b := range s   (s a []byte variable, same body rules)
 //	          | return e, ...
 //	expr      x | literal int | true | false | nil (error result) | package constant / []byte variable / errors.New variable
 //	          | len(e) | e[i] | e[lo:hi] | e[:hi] | e[lo:] | e[:] | make([]byte, n) | []byte(stringConstant)
@@ -351,6 +355,7 @@ type tr struct {
 	ntmp    int
 	results []gtype
 	freshOK int
+	nsyn    int // synthetic variables (switch tag, hidden range index): names with a ' cannot clash with Go identifiers
 }
 
 func (t *tr) refuse(n ast.Node, format string, a ...interface{}) {
@@ -1366,8 +1371,30 @@ func terminates(list []ast.Stmt) bool {
 		return terminates(s.Body.List) && terminates(elseList(s.Else))
 	case *ast.BlockStmt:
 		return terminates(s.List)
+	case *ast.SwitchStmt:
+		hasDefault := false
+		for _, c := range s.Body.List {
+			cc, ok := c.(*ast.CaseClause)
+			if !ok || !terminates(stripBreak(cc.Body)) {
+				return false
+			}
+			if cc.List == nil {
+				hasDefault = true
+			}
+		}
+		return hasDefault
 	}
 	return false
+}
+
+// stripBreak: a clause body without its final unlabelled `break` (which only ends the clause)
+func stripBreak(body []ast.Stmt) []ast.Stmt {
+	if n := len(body); n > 0 {
+		if b, ok := body[n-1].(*ast.BranchStmt); ok && b.Tok == token.BREAK && b.Label == nil {
+			return body[:n-1]
+		}
+	}
+	return body
 }
 
 func elseList(s ast.Stmt) []ast.Stmt {
@@ -1490,6 +1517,10 @@ func (t *tr) block(list []ast.Stmt, m mode, ind string) string {
 		return t.ifStmt(x, rest, m, ind)
 	case *ast.ForStmt:
 		return t.forStmt(x, rest, m, ind)
+	case *ast.RangeStmt:
+		return t.rangeStmt(x, rest, m, ind)
+	case *ast.SwitchStmt:
+		return t.switchStmt(x, rest, m, ind)
 	}
 	t.refuse(s, "statement form %T", s)
 	return ""
@@ -1602,11 +1633,22 @@ func (t *tr) assignInd(x *ast.AssignStmt, at ast.Stmt, ind string) string {
 }
 
 func (t *tr) ifStmt(x *ast.IfStmt, rest []ast.Stmt, m mode, ind string) string {
+	pre := ""
 	if x.Init != nil {
-		t.refuse(x, "if with an init statement")
+		// if x := e; cond { ... }: x is declared for the condition and both branches
+		as, ok := x.Init.(*ast.AssignStmt)
+		if !ok || as.Tok != token.DEFINE || len(as.Lhs) != 1 || len(as.Rhs) != 1 {
+			t.refuse(x, "if with an init statement other than `x := e`")
+		}
+		id, ok := as.Lhs[0].(*ast.Ident)
+		if !ok {
+			t.refuse(x, "if with an init statement other than `x := e`")
+		}
+		pre = t.assignInd(as, x, ind)
+		defer delete(t.env, id.Name)
 	}
 	cond := t.expr(x.Cond, gtype{k: kBool})
-	pre := t.flush(ind)
+	pre += t.flush(ind)
 	thenL := x.Body.List
 	var elseL []ast.Stmt
 	if x.Else != nil {
@@ -1676,21 +1718,143 @@ func (t *tr) wholeAssigned(list []ast.Stmt, name string) bool {
 	return found
 }
 
-// for i := 0; i < len(x); i++ { body }
-func (t *tr) forStmt(x *ast.ForStmt, rest []ast.Stmt, m mode, ind string) string {
-	if m.k != mFunc {
-		t.refuse(x, "loop inside a loop or inside a conditional that falls through")
+// switch: translated as the if / else-if chain with the same evaluation order (clauses top to bottom, the
+// expressions of a clause left to right, stopping at the first match; default last wherever it is written).
+// A tag is evaluated once, into a synthetic variable.  No init statement, no fallthrough; break only as the
+// last statement of a clause.
+func (t *tr) switchStmt(x *ast.SwitchStmt, rest []ast.Stmt, m mode, ind string) string {
+	if x.Init != nil {
+		t.refuse(x, "switch with an init statement")
 	}
-	bad := func() { t.refuse(x, "loop shape (only `for i := 0; i < len(x); i++ { ... }`)") }
+	pre := ""
+	var tag ast.Expr
+	if x.Tag != nil {
+		t.nsyn++
+		id := &ast.Ident{NamePos: x.Tag.Pos(), Name: fmt.Sprintf("tag'%d", t.nsyn)}
+		pre = t.assignInd(&ast.AssignStmt{Lhs: []ast.Expr{id}, TokPos: x.Tag.Pos(), Tok: token.DEFINE, Rhs: []ast.Expr{x.Tag}}, x, ind)
+		if ty := t.env[id.Name].typ; !ty.isInt() && ty.k != kBool {
+			t.refuse(x.Tag, "switch on a value of type %s (only integers and bool)", ty)
+		}
+		t.env[id.Name].fresh = false
+		tag = id
+	}
+	var def *ast.CaseClause
+	var cases []*ast.CaseClause
+	for _, c := range x.Body.List {
+		cc, ok := c.(*ast.CaseClause)
+		if !ok {
+			t.refuse(c, "switch body")
+		}
+		for _, st := range cc.Body {
+			if b, ok := st.(*ast.BranchStmt); ok && b.Tok == token.FALLTHROUGH {
+				t.refuse(b, "fallthrough")
+			}
+		}
+		if cc.List == nil {
+			if def != nil {
+				t.refuse(cc, "second default clause")
+			}
+			def = cc
+		} else {
+			cases = append(cases, cc)
+		}
+	}
+	if len(cases) == 0 {
+		t.refuse(x, "switch without a case clause")
+	}
+	var chain ast.Stmt
+	if def != nil {
+		chain = &ast.BlockStmt{Lbrace: def.Pos(), List: stripBreak(def.Body)}
+	}
+	for k := len(cases) - 1; k >= 0; k-- {
+		var cond ast.Expr
+		for _, e := range cases[k].List {
+			c := e
+			if tag != nil {
+				c = &ast.BinaryExpr{X: tag, OpPos: e.Pos(), Op: token.EQL, Y: e}
+			}
+			if cond == nil {
+				cond = c
+			} else {
+				cond = &ast.BinaryExpr{X: cond, OpPos: e.Pos(), Op: token.LOR, Y: c}
+			}
+		}
+		ifs := &ast.IfStmt{If: cases[k].Pos(), Cond: cond, Body: &ast.BlockStmt{Lbrace: cases[k].Colon, List: stripBreak(cases[k].Body)}}
+		if chain != nil {
+			ifs.Else = chain
+		}
+		chain = ifs
+	}
+	return pre + t.block(append([]ast.Stmt{chain}, rest...), m, ind)
+}
+
+// checkLoopBody: the body may not assign the counter or any variable declared outside the loop (so every
+// expression over such variables is loop-invariant), and may not contain break / continue / goto / fallthrough
+// (a `break` that is the last statement of a switch clause only ends the clause and is allowed)
+func (t *tr) checkLoopBody(at ast.Node, iv string, body []ast.Stmt) {
+	func() {
+		saved := t.env
+		t.env = t.copyEnv()
+		t.env[iv] = &varInfo{typ: gtype{k: kInt}}
+		defer func() { t.env = saved }()
+		if as := t.assignedOuter(body); len(as) > 0 {
+			t.refuse(at, "loop body assigns %s, declared outside the body", strings.Join(as, ", "))
+		}
+	}()
+	allowed := map[*ast.BranchStmt]bool{}
+	for _, s := range body {
+		ast.Inspect(s, func(n ast.Node) bool {
+			if cc, ok := n.(*ast.CaseClause); ok {
+				if k := len(cc.Body); k > 0 {
+					if b, ok := cc.Body[k-1].(*ast.BranchStmt); ok && b.Tok == token.BREAK && b.Label == nil {
+						allowed[b] = true
+					}
+				}
+			}
+			return true
+		})
+	}
+	for _, s := range body {
+		ast.Inspect(s, func(n ast.Node) bool {
+			if b, ok := n.(*ast.BranchStmt); ok && !allowed[b] {
+				t.refuse(b, "%s statement inside a loop", b.Tok)
+			}
+			return true
+		})
+	}
+}
+
+// loop: `header (fun v_i => pre; body)` followed by the early-return test; header is a GoSem loop combinator
+// applied to its bounds (go_for_upto n | go_for_range a e)
+func (t *tr) loop(at ast.Node, iv string, header string, pre []ast.Stmt, body []ast.Stmt, rest []ast.Stmt, m mode, ind string) string {
+	if m.k != mFunc {
+		t.refuse(at, "loop inside a loop or inside a conditional that falls through")
+	}
+	t.checkLoopBody(at, iv, body)
+	in2 := ind + "  "
+	b := t.inScope(func() string {
+		t.env[iv] = &varInfo{typ: gtype{k: kInt}}
+		return t.block(append(append([]ast.Stmt{}, pre...), body...), mode{k: mLoop}, in2)
+	})
+	r := t.tmp()
+	out := ind + r + " <- " + header + " (fun " + vname(iv) + " =>\n" + b + ind + ") ;;\n"
+	out += ind + "match " + r + " with\n"
+	out += ind + "| Some r => go_ret r\n"
+	out += ind + "| None =>\n" + t.block(rest, m, in2) + ind + "end\n"
+	return out
+}
+
+// for i := a; i < e; i++ { body }: a and e panic-free int expressions that do not mention i; e is loop-invariant
+// because the body assigns no variable declared outside it (checkLoopBody).  The iteration count is fixed before
+// the loop: len(x) for the shape `i := 0; i < len(x)`, else max(0, e - a).
+func (t *tr) forStmt(x *ast.ForStmt, rest []ast.Stmt, m mode, ind string) string {
+	bad := func() { t.refuse(x, "loop shape (only `for i := a; i < e; i++ { ... }` and `for ... := range s`)") }
 	init, ok := x.Init.(*ast.AssignStmt)
 	if !ok || init.Tok != token.DEFINE || len(init.Lhs) != 1 || len(init.Rhs) != 1 {
 		bad()
 	}
 	iv, ok := init.Lhs[0].(*ast.Ident)
 	if !ok || iv.Name == "_" || t.isLocal(iv.Name) {
-		bad()
-	}
-	if lit, ok := init.Rhs[0].(*ast.BasicLit); !ok || lit.Kind != token.INT || lit.Value != "0" {
 		bad()
 	}
 	cond, ok := x.Cond.(*ast.BinaryExpr)
@@ -1700,18 +1864,6 @@ func (t *tr) forStmt(x *ast.ForStmt, rest []ast.Stmt, m mode, ind string) string
 	if ci, ok := cond.X.(*ast.Ident); !ok || ci.Name != iv.Name {
 		bad()
 	}
-	call, ok := cond.Y.(*ast.CallExpr)
-	if !ok || t.builtin(call) != "len" || len(call.Args) != 1 {
-		bad()
-	}
-	sv, ok := call.Args[0].(*ast.Ident)
-	if !ok {
-		bad()
-	}
-	svi, ok := t.env[sv.Name]
-	if !ok || svi.typ.k != kBytes {
-		bad()
-	}
 	post, ok := x.Post.(*ast.IncDecStmt)
 	if !ok || post.Tok != token.INC {
 		bad()
@@ -1719,33 +1871,85 @@ func (t *tr) forStmt(x *ast.ForStmt, rest []ast.Stmt, m mode, ind string) string
 	if pi, ok := post.X.(*ast.Ident); !ok || pi.Name != iv.Name {
 		bad()
 	}
-	// the body may not assign the counter, the slice, or any variable declared outside the loop
-	func() {
-		saved := t.env
-		t.env = t.copyEnv()
-		t.env[iv.Name] = &varInfo{typ: gtype{k: kInt}}
-		defer func() { t.env = saved }()
-		if as := t.assignedOuter(x.Body.List); len(as) > 0 {
-			t.refuse(x, "loop body assigns %s, declared outside the body", strings.Join(as, ", "))
-		}
-	}()
-	ast.Inspect(x.Body, func(n ast.Node) bool {
-		if b, ok := n.(*ast.BranchStmt); ok {
-			t.refuse(b, "%s statement", b.Tok)
+	mentions := false
+	ast.Inspect(cond.Y, func(n ast.Node) bool {
+		if id, ok := n.(*ast.Ident); ok && id.Name == iv.Name {
+			mentions = true
 		}
 		return true
 	})
-	in2 := ind + "  "
-	body := t.inScope(func() string {
-		t.env[iv.Name] = &varInfo{typ: gtype{k: kInt}}
-		return t.block(x.Body.List, mode{k: mLoop}, in2)
-	})
-	r := t.tmp()
-	out := ind + r + " <- go_for_upto (List.length " + vname(sv.Name) + ") (fun " + vname(iv.Name) + " =>\n" + body + ind + ") ;;\n"
-	out += ind + "match " + r + " with\n"
-	out += ind + "| Some r => go_ret r\n"
-	out += ind + "| None =>\n" + t.block(rest, m, in2) + ind + "end\n"
-	return out
+	if mentions {
+		t.refuse(cond.Y, "loop bound mentions the counter")
+	}
+	header := ""
+	if lit, ok := init.Rhs[0].(*ast.BasicLit); ok && lit.Kind == token.INT && lit.Value == "0" {
+		if call, ok := cond.Y.(*ast.CallExpr); ok && t.builtin(call) == "len" && len(call.Args) == 1 {
+			if sv, ok := call.Args[0].(*ast.Ident); ok {
+				if svi, ok := t.env[sv.Name]; ok && svi.typ.k == kBytes {
+					header = "go_for_upto (List.length " + vname(sv.Name) + ")"
+				}
+			}
+		}
+	}
+	if header == "" {
+		if len(t.binds) != 0 {
+			t.refuse(x, "internal: pending bindings before a loop")
+		}
+		for _, e := range []ast.Expr{init.Rhs[0], cond.Y} {
+			if ty := t.typeOf(e); ty.k != kUntyped && ty != (gtype{k: kInt}) {
+				t.refuse(e, "loop bound of type %s (only int)", ty)
+			}
+		}
+		a := t.expr(init.Rhs[0], gtype{k: kInt})
+		e := t.expr(cond.Y, gtype{k: kInt})
+		if len(t.binds) != 0 {
+			t.refuse(x, "loop bounds that can panic or call functions")
+		}
+		header = "go_for_range " + a + " " + e
+	}
+	return t.loop(x, iv.Name, header, nil, x.Body.List, rest, m, ind)
+}
+
+// for i := range s | for i, b := range s | for _, b := range s, s a []byte variable that the body does not assign:
+// len(s) iterations ("the range expression is evaluated once"), b = s[i] at the start of the iteration
+func (t *tr) rangeStmt(x *ast.RangeStmt, rest []ast.Stmt, m mode, ind string) string {
+	if x.Tok != token.DEFINE || x.Key == nil {
+		t.refuse(x, "range loop without `:=` variables")
+	}
+	sv, ok := x.X.(*ast.Ident)
+	if !ok {
+		t.refuse(x.X, "range over an expression that is not a variable")
+	}
+	svi, ok := t.env[sv.Name]
+	if !ok || svi.typ.k != kBytes {
+		t.refuse(x.X, "range over something that is not a local []byte variable")
+	}
+	key, ok := x.Key.(*ast.Ident)
+	if !ok {
+		t.refuse(x.Key, "range key")
+	}
+	ivName := key.Name
+	if ivName == "_" {
+		t.nsyn++
+		ivName = fmt.Sprintf("idx'%d", t.nsyn)
+	} else if t.isLocal(ivName) {
+		t.refuse(key, "%s := ... redeclares or shadows a variable in scope", ivName)
+	}
+	var pre []ast.Stmt
+	if x.Value != nil {
+		val, ok := x.Value.(*ast.Ident)
+		if !ok {
+			t.refuse(x.Value, "range value")
+		}
+		if val.Name != "_" {
+			if val.Name == ivName {
+				t.refuse(val, "range key and value have the same name")
+			}
+			pre = append(pre, &ast.AssignStmt{Lhs: []ast.Expr{val}, TokPos: val.Pos(), Tok: token.DEFINE,
+				Rhs: []ast.Expr{&ast.IndexExpr{X: sv, Lbrack: val.Pos(), Index: &ast.Ident{NamePos: val.Pos(), Name: ivName}, Rbrack: val.Pos()}}})
+		}
+	}
+	return t.loop(x, ivName, "go_for_upto (List.length "+vname(sv.Name)+")", pre, x.Body.List, rest, m, ind)
 }
 
 // ---------------------------------------------------------------------------------------------
